@@ -119,6 +119,8 @@ def rule_padding_after_cache(ck, m, rid):
 
 
 def run(ck, m):
+    from rules.common import rule_memo_safety
+    rule_memo_safety(ck, m, "MEMO", "C09")          # first: a memoised helper also hides the code it wraps from the rules below
     itf, rc = iterate_facts(ck, m)
     # ---- R1 ----------------------------------------------------------------------------
     mutable = set()
@@ -279,8 +281,17 @@ def run(ck, m):
     ck.ob("R5", cs or ii, cs is not None and same_bool(ii, cs.value, "repeat != 1 and (cached if isinstance(cached, bool) else image.n_frames <= cached)"),
           "ImageIterator._cached must be: repeat != 1 and (cached if bool else n_frames <= cached)", stmt="ImageIterator.__init__: _cached decision")
 
-    from rules.common import rule_memo_safety
-    rule_memo_safety(ck, m, "MEMO", "C09")
+    from tiv.cfg import CFG as _CFG, fmt_path as _fp
+    g5 = _CFG(ia)
+    reads = [n for n in g5.nodes if n.kind == "stmt" and n.ast is not None and not any(isinstance(t, ast.Subscript) and norm(t.value) == "cache" for t, _ in stores_in(n.ast))
+             and any(isinstance(x, ast.Subscript) and norm(x) == "cache[n]" and isinstance(x.ctx, ast.Load) for x in ast.walk(n.ast))]
+    tests5 = [n for n in g5.nodes if n.kind == "test" and n.ast is not None and "hash(image.rendered_size)" in norm(n.ast)]
+    yields5 = [n for n in g5.nodes if n.kind == "stmt" and n.ast is not None and any(isinstance(x, ast.Yield) for x in ast.walk(n.ast))]
+    ck.expect(len(reads) >= 1 and len(tests5) >= 1, "ImageIterator._animate: reads of cache[n] / size-hash tests not found")
+    for r_ in reads:
+        p_ = g5.search([r_], lambda x: x in yields5, avoid=lambda x: x in tests5, edge_ok=lambda a, lab, d: not lab.startswith(("e:", "p:")))
+        ck.ob("R5", r_.ast, p_ is None, f"a frame read from the cache (`{short(r_.ast, 50)}`) can be yielded without comparing its stored size hash with hash(image.rendered_size) ({_fp(p_) if p_ else ''}): "
+              "after the image size changed a frame rendered at the old size is served", stmt=f"ImageIterator._animate: cached frame validated before it is yielded: {short(r_.ast, 50)}")
 
 
 MUTANTS = [
